@@ -19,7 +19,7 @@ func init() {
 	core.Register(&core.Check{
 		ID:    "C14",
 		Level: "model_checking",
-		Rule: "for each of 7 body shapes (guarded yield then recur; recur then guarded yield; two yields; no recur; keyword arguments; body reading a reassigned outer variable; unguarded infinite) the complete history tree of depth <=5 (thorough 6) over the operations " +
+		Rule: "for each of 8 body shapes (guarded yield then recur; recur then guarded yield; two yields; no recur; keyword arguments; body reading a reassigned outer variable; unguarded infinite) the complete history tree of depth <=5 (thorough 6) over the operations " +
 			"{iK := gen.new(0|2), iK := iJ.new(1), iK := iJ (alias), iJ.next, iJ.A, iJ@{..}, iJ$(0)+ (thorough), lim := 1|5} on <=3 iterator variables; states = model states reached, transitions = operations; " +
 			"every path is one program on the real interpreter and every observation along it (value / StopIterErr / collected list) is compared with the model; A and chains are generated only where the model proves the iteration finite; " +
 			"non-trivial = path touching >=2 iterator objects or containing a chain/A; distinct = distinct operation sequence",
@@ -46,6 +46,8 @@ var shapes = []shape{
 	{Name: "kwargs", Gen: "gen := <{|i, step: 1| yield i if i < 4; recur(i + step, step: step)}>", Kw: true},
 	{Name: "outer-variable", Gen: "lim := 3\ngen := <{|i| yield i if i < lim; recur(i + 1)}>"},
 	{Name: "infinite", Gen: "gen := <{|i| yield i; recur(i + 1)}>"},
+	// the first yield of an evaluation is nil for even i; a second yield and a non-nil last statement follow
+	{Name: "nil-first-yield", Gen: "gen := <{|i| yield [nil, i][i % 2] if i < 4; yield 99; recur(i + 1); 77}>"},
 }
 
 type op struct {
@@ -126,9 +128,22 @@ func (s *mstate) next(it *mit) (int, bool) {
 		v := it.i
 		it.i++
 		return v, false
+	case "nil-first-yield":
+		if it.i < 4 {
+			v := it.i
+			it.i++
+			if v%2 == 0 {
+				return nilValue, false
+			}
+			return v, false
+		}
+		return 0, true
 	}
 	return 0, true
 }
+
+// nilValue marks a yielded nil in the model (values are small non-negative ints otherwise)
+const nilValue = -1000000
 
 // collect returns the values a copy of it would produce; ok=false if it does not stop within the cap.
 func (s *mstate) collect(it *mit) ([]int, bool) {
@@ -144,10 +159,14 @@ func (s *mstate) collect(it *mit) ([]int, bool) {
 	return nil, false
 }
 
+// ints renders collected values; a list chain (and A, which is one) drops nil results
 func ints(vs []int, f func(int) int) string {
-	p := make([]string, len(vs))
-	for i, v := range vs {
-		p[i] = fmt.Sprint(f(v))
+	var p []string
+	for _, v := range vs {
+		if v == nilValue {
+			continue
+		}
+		p = append(p, fmt.Sprint(f(v)))
 	}
 	return "[" + strings.Join(p, ", ") + "]"
 }
@@ -179,18 +198,35 @@ func (s *mstate) apply(o op, n int) (src string, want string) {
 		if stop {
 			return fmt.Sprintf("%s := i%d.try.next.A", r, o.J), "[nil, [StopIterErr: iter stopped]]"
 		}
+		if v == nilValue {
+			return fmt.Sprintf("%s := i%d.try.next.A", r, o.J), "[nil, nil]"
+		}
 		return fmt.Sprintf("%s := i%d.try.next.A", r, o.J), fmt.Sprintf("[%d, nil]", v)
 	case "A":
 		vs, _ := s.collect(s.vars[o.J])
 		return fmt.Sprintf("%s := i%d.A", r, o.J), ints(vs, func(v int) int { return v })
 	case "list":
 		vs, _ := s.collect(s.vars[o.J])
+		if shapes[s.shape].Name == "nil-first-yield" {
+			// strict list chain: yielded nils are kept as elements
+			var p []string
+			for _, v := range vs {
+				if v == nilValue {
+					p = append(p, "nil")
+				} else {
+					p = append(p, fmt.Sprint(v))
+				}
+			}
+			return fmt.Sprintf("%s := i%d=@{|v| v}", r, o.J), "[" + strings.Join(p, ", ") + "]"
+		}
 		return fmt.Sprintf("%s := i%d@{|v| v * 10 + 1}", r, o.J), ints(vs, func(v int) int { return v*10 + 1 })
 	case "reduce":
 		vs, _ := s.collect(s.vars[o.J])
 		sum := 0
 		for _, v := range vs {
-			sum += v
+			if v != nilValue { // `acc + nil` is acc
+				sum += v
+			}
 		}
 		return fmt.Sprintf("%s := i%d$(0)+", r, o.J), fmt.Sprint(sum)
 	case "lim":
